@@ -26,6 +26,19 @@ def gen(chk, tier):
     for _ in range(10 if q else 2000):
         g.one("genkey_random", "sm2.genkey", nilreader=False, script=sm2gen.script_of([rng.getrandbits(256), rscalar(rng)]))
     g.one("genkey_nil", "sm2.genkey", nilreader=True, script=[])
+    # sources that deliver fewer than 32 bytes per Read (one byte at a time, ragged, half units) and
+    # streams that end in the middle of a candidate
+    for _ in range(6 if q else 60):
+        stream = b32(rng.choice([0, N - 1, rscalar(rng)])) + b32(rscalar(rng)) + b32(rscalar(rng))
+        for chunk in (1, 16, 31, 33):
+            script, pos = [], 0
+            while pos < len(stream):
+                L = chunk if chunk != 31 else rng.choice([1, 7, 31])
+                script.append(dict(d=stream[pos:pos + L], err=""))
+                pos += L
+            g.one("genkey_short_reads", "sm2.genkey", nilreader=False, script=script)
+        g.one("genkey_stream_ends_mid_candidate", "sm2.genkey", nilreader=False,
+              script=[dict(d=b32(0) + b32(rscalar(rng))[:rng.randrange(1, 32)], err="")])
     # private-key test
     vals = [0, 1, 2, N - 3, N - 2, N - 1, N, N + 1, T256 - 1, 1 << 255, (1 << 248) - 1, 1 << 248]
     vals += [rng.getrandbits(256) for _ in range(10 if q else 3000)]
@@ -93,7 +106,7 @@ def keyfn(b):
 def run(tier):
     chk = Check(PROP, tier)
     chk.model("MC_SM2Toy", cfg="MC_SM2Toy.cfg" if tier == "thorough" else "MC_SM2Toy_quick.cfg")
-    chk.model("MC_Reader")
+    chk.model("MC_Reader", cfg="MC_Reader.cfg" if tier == "quick" else "MC_Reader_thorough.cfg", timeout=3000)
     chk.exec_and_validate("T_SM2", gen(chk, tier), keyfn, accel=True, families=("bits", "big"))
     return chk.finish(
         "model_checking",
